@@ -604,6 +604,39 @@ class Interp:
                     return Const(x ** y)
             except Exception:
                 pass
+        if op == "Add":
+            # list concatenation: a new list holding the elements of both (neither operand is changed)
+            def listlike(x):
+                if isinstance(x, Ref) and isinstance(self.deref(x), HList) and not self.deref(x).is_set:
+                    return True
+                return isinstance(x, ElemV) and x.role in ("clause", "coll", "layer", "partition-list")
+            if listlike(a) and listlike(b) and (isinstance(a, Ref) or isinstance(b, Ref)):
+                r = self.alloc(HList(list(self.segments(a, node)) + list(self.segments(b, node))))
+                self.log("list.concat", node, left=a, right=b, dst=r)
+                return r
+            # string concatenation with symbolic parts builds the same text an f-string would
+            def strparts(x):
+                if isinstance(x, Const) and isinstance(x.value, str):
+                    return (x.value,)
+                if isinstance(x, NameV):
+                    return x.parts
+                if isinstance(x, Sym) and x.hint == "str":
+                    return (desc(x),)
+                return None
+            pa, pb = strparts(a), strparts(b)
+            # one side is certainly text: `+` is defined only if the other side is text as well
+            if pa is not None and pb is None and isinstance(b, (Sym, ElemV)) and not (isinstance(b, Sym) and b.hint in ("int", "float", "bool")):
+                pb = (desc(b),)
+            if pb is not None and pa is None and isinstance(a, (Sym, ElemV)) and not (isinstance(a, Sym) and a.hint in ("int", "float", "bool")):
+                pa = (desc(a),)
+            if pa is not None and pb is not None and (isinstance(a, (NameV, Sym, ElemV)) or isinstance(b, (NameV, Sym, ElemV)) or (isinstance(a, Const) and isinstance(b, Const))):
+                merged = []
+                for q in pa + pb:
+                    if isinstance(q, str) and merged and isinstance(merged[-1], str):
+                        merged[-1] += q
+                    else:
+                        merged.append(q)
+                return NameV(tuple(merged)) if not all(isinstance(q, str) for q in merged) else Const("".join(merged))
         if op in ("Add", "Sub"):
             la, lb = self.as_lin(a), self.as_lin(b)
             if la is not None and lb is not None:
@@ -1503,6 +1536,8 @@ class Interp:
                 elif isinstance(n, ast.Call) and isinstance(n.func, ast.Attribute) and isinstance(n.func.value, ast.Name):
                     if n.func.attr in ("append", "add", "update", "setdefault", "pop", "extend", "insert", "remove", "discard"):
                         mutated.add(n.func.value.id)
+                        if n.func.attr == "setdefault":
+                            consulted.add(n.func.value.id)  # it reads what earlier iterations stored
                     elif n.func.attr in ("get", "keys", "values", "items", "index", "count"):
                         consulted.add(n.func.value.id)
                 elif isinstance(n, ast.Compare) and any(isinstance(o, (ast.In, ast.NotIn)) for o in n.ops):
